@@ -63,8 +63,8 @@ package auditd
 //@   assert_at NewReassembler[window] maxInFlight >= 3
 //@   assert_at NewReassembler[errcap] chancap(cast(stream, "*processors/auditd.reassemblerCB").errors) >= 1 && pending(cast(stream, "*processors/auditd.reassemblerCB").errors) == 0
 //@   |   && cast(stream, "*processors/auditd.reassemblerCB").au != nil
-//@   assert_at (*sessionTracker).DeleteUsersWithoutLoginsBefore[cutoff] t == aMinuteAgo && t == clock - 60000000000
-//@   assert_at (*sessionTracker).DeleteRemoteUserLoginsBefore[cutoff] t == aMinuteAgo && t <= clock - 60000000000
+//@   assert_at (*sessionTracker).DeleteUsersWithoutLoginsBefore[cutoff] t == clock - 60000000000
+//@   assert_at (*sessionTracker).DeleteRemoteUserLoginsBefore[cutoff] t <= clock - 60000000000
 //@   loop Read#1 invariant[causal] Causal(tracker)
 //@   loop Read#1 invariant[inv] tracker != nil && TrackerInv(tracker) && staleDataTicker != nil && tickperiod(staleDataTicker) == 60000000000
 //@   loop Read#1 invariant[chans] reassembler != nil && fresh(parseAuditLogsDone) && (o.Logins == nil || old(alloc(o.Logins)))
